@@ -27,11 +27,15 @@ ASSUMPTIONS = ["deep snapshots: copy.deepcopy + == on graph nodes/edges/attribut
                "HiGHS with threads=1 is deterministic for identical models (used when the last construction is repeated with fresh arguments)"]
 TRUSTED = ["model: coq/theories/Effects.v; proofs EffectsProofs.v"]
 
+KINDS = ("dag", "cyc", "dag2")
 GRAPH_MODELS = ci.DAG_CLASSES + ci.CYC_CLASSES + ["MinErrorFlow"]
 OTHER = ["MinGenSet", "MinSetCover", "NumPathsOptimization"]
 EXT_KEY = "external_safe_paths"
 EXT_FINDING = "AbstractPathModelDAG:extends-caller-list:external_safe_paths"
-KEYCODE = {"external_safe_paths": 101, "trusted_edges_for_safety": 0, "allow_empty_paths": 1, "optimize_with_safe_paths": 2, "optimize_with_safe_sequences": 3,
+CLASS_OPTIONS = ["use_subgraph_scanning_lowerbound", "use_min_gen_set_lowerbound", "optimize_with_guessed_weights",
+                 "optimize_with_safe_sequences_fix_via_bounds"]      # valid non-default options of MinFlowDecomp(Cycles) / the walk models
+KEYCODE = {"use_subgraph_scanning_lowerbound": 102, "use_min_gen_set_lowerbound": 103, "optimize_with_guessed_weights": 104,
+           "optimize_with_safe_sequences_fix_via_bounds": 105, "external_safe_paths": 101, "trusted_edges_for_safety": 0, "allow_empty_paths": 1, "optimize_with_safe_paths": 2, "optimize_with_safe_sequences": 3,
            "optimize_with_safe_zero_edges": 4, "optimize_with_subpath_constraints_as_safe_sequences": 5,
            "optimize_with_safety_as_subpath_constraints": 6, "verif_user_key": 100}
 ALIASING = {"kLeastAbsErrors", "kMinPathError", "kFlowDecompCycles", "kLeastAbsErrorsCycles", "kMinPathErrorCycles", "MinFlowDecompCycles"}
@@ -99,8 +103,13 @@ class Shared:
         sd = ci.gen_valid(rng, "kFlowDecomp"); sd["origin"] = "edge"; sd["node_w"] = {}
         sc = ci.gen_valid(rng, "kFlowDecompCycles"); sc["origin"] = "edge"; sc["node_w"] = {}
         self.G = {"dag": ci.build_graph(sd), "cyc": ci.build_graph(sc)}
+        # a second DAG of width 1 (a single path), so that models of one history run on graphs of different width
+        P = nx.DiGraph(); names = ["p%d" % j for j in range(rng.randint(3, 5))]; w = rng.randint(2, 7)
+        for u, v in zip(names, names[1:]):
+            P.add_edge(u, v, flow=w)
+        self.G["dag2"] = P
         self.cons = {}; self.ign = {}; self.scal = {}; self.starts = {}; self.ends = {}
-        for kind in ("dag", "cyc"):
+        for kind in KINDS:
             G = self.G[kind]
             for v in G.nodes():                     # node weights under the same attribute name: node mode shares the graph object
                 G.nodes[v]["flow"] = max(sum(d.get("flow", 0) for _, _, d in G.in_edges(v, data=True)),
@@ -123,8 +132,11 @@ class Shared:
             self.opts["external_safe_paths"] = [[des[rng.randrange(len(des))]] for _ in range(rng.randint(1, 2))]
         if rng.random() < 0.3:
             self.opts["optimize_with_safety_as_subpath_constraints"] = True
+        for name in CLASS_OPTIONS:
+            if rng.random() < 0.3:
+                self.opts[name] = True
         self.sopts = dict(ci.SOLVER_OPTIONS)
-        self.k = {"dag": max(1, sd["k"] or 1), "cyc": max(1, sc["k"] or 1)}
+        self.k = {"dag": max(1, sd["k"] or 1), "cyc": max(1, sc["k"] or 1), "dag2": 1}
         nums = sorted({rng.randint(1, 9) for _ in range(4)})
         self.numbers = nums; self.total = sum(nums[:2]) if len(nums) > 1 else nums[0]
         self.universe = list(range(1, 7))
@@ -147,7 +159,7 @@ class Shared:
         f = Shared.__new__(Shared)
         f.k = dict(sh.k); f.total = sh.total
         f.G = {}
-        for kind in ("dag", "cyc"):
+        for kind in KINDS:
             H = nx.DiGraph(); nodes, edges, gattr = init["G"][kind]
             H.add_nodes_from(copy.deepcopy(nodes)); H.add_edges_from(copy.deepcopy(edges)); H.graph.update(copy.deepcopy(gattr)); f.G[kind] = H
         for a in Shared.ARGS:
@@ -160,7 +172,8 @@ def make_op(rng):
     op = {"cls": cls, "pass_opts": rng.random() < 0.7, "pass_sopts": rng.random() < 0.8, "pass_cons": rng.random() < 0.6,
           "pass_ign": rng.random() < 0.4, "pass_scal": rng.random() < 0.6, "pass_starts": rng.random() < 0.3,
           "node": rng.random() < 0.3, "sup": cls in ("kLeastAbsErrors", "kMinPathError") and rng.random() < 0.3,
-          "solve": rng.random() < 0.85, "inner": rng.choice(["kMinPathError", "kLeastAbsErrors"])}
+          "solve": rng.random() < 0.8, "lb_only": rng.random() < 0.5, "narrow": rng.random() < 0.3,
+          "inner": rng.choice(["kMinPathError", "kLeastAbsErrors"])}
     if cls == "MinErrorFlow":
         op["pass_scal"] = rng.random() < 0.8
     if cls == "MinSetCover":
@@ -181,7 +194,7 @@ def kwargs_for(op, sh):
         if op["pass_sopts"]: kw["solver_options"] = sh.sopts
         return kw
     gcls = op["inner"] if cls == "NumPathsOptimization" else cls
-    kind = "cyc" if gcls in ci.CYC_CLASSES else "dag"
+    kind = "cyc" if gcls in ci.CYC_CLASSES else ("dag2" if op["narrow"] else "dag")
     mode = "node" if (op["node"] and gcls in NODE_MODE_OK) else "edge"
     kw = {"G": sh.G[kind]}
     if gcls in ci.IS_COVER:
@@ -192,7 +205,7 @@ def kwargs_for(op, sh):
     if gcls in ci.HAS_K and cls != "NumPathsOptimization":
         kw["k"] = sh.k[kind] + (1 if gcls not in ci.IS_FD else 0)
     # external_safe_paths names edges of the caller's DAG: it is only a valid option for edge-weighted DAG models
-    op["pass_opts_eff"] = bool(op["pass_opts"] and gcls != "MinErrorFlow" and not (EXT_KEY in sh.opts and mode == "node" and kind == "dag"))
+    op["pass_opts_eff"] = bool(op["pass_opts"] and gcls != "MinErrorFlow" and not (EXT_KEY in sh.opts and kind != "cyc" and (mode == "node" or kind == "dag2")))
     if op["pass_opts_eff"]:
         kw["optimization_options"] = sh.opts
     if op["pass_sopts"]:
@@ -234,6 +247,8 @@ def run_op(op, kw):
         m = getattr(fp, op["cls"])(**kw)
         if op["solve"]:
             m.solve()
+        elif op.get("lb_only") and hasattr(m, "get_lowerbound_k") and op["cls"] not in ("NumPathsOptimization",):
+            m.get_lowerbound_k()            # constructed, asked for its lower bound, dropped without being solved
         s = [bool(m.is_solved()) for _ in range(3)]
         getter_ok = s[0] == s[1] == s[2]
         res["solved"] = s[0]
@@ -284,6 +299,15 @@ def run(ctx):
         except RuntimeError:
             continue
         ops = [make_op(rng) for _ in range(rng.randint(3, 7))]
+        ops[-1]["solve"] = True                  # the model whose result is compared with a fresh-argument run is solved
+        if rng.random() < 0.5:                   # ... often right after a model that was only constructed / asked for its lower bound
+            ops[-2]["solve"] = False; ops[-2]["pass_opts"] = True
+            if rng.random() < 0.6:
+                ops[-2]["cls"] = rng.choice(ci.CYC_CLASSES); ops[-2]["sup"] = False
+                ops[-1]["cls"] = rng.choice([c for c in ci.CYC_CLASSES if c not in ("MinFlowDecompCycles",)]); ops[-1]["sup"] = False
+        for o in ops:
+            if o["cls"] == "MinSetCover":
+                o["solve"] = True                # its is_solved() raises before solve() by design
         init = sh.snapshot()
         steps = []
         before = init
